@@ -829,6 +829,10 @@ impl Property for C16 {
     fn run_tape(&self, tape: &[u8], ctx: &mut Ctx) -> Result<(), Failure> {
         let mut t = Tape::new(tape);
         let chunk = 1 + t.below(3);
+        if t.chance(1, 10) {
+            // LimitedReader as an object with a call history
+            return super::c16_limited::check_history(&super::c16_limited::Hist::gen(&mut t), ctx);
+        }
         if t.chance(3, 10) {
             check_builder(&gen_builder(&mut t), chunk, ctx)
         } else {
@@ -842,6 +846,7 @@ impl Property for C16 {
             // development switch: measure the sampled generator alone (sensitivity runs)
             return Ok(());
         }
+        super::c16_limited::enumerate(shard, nshards, ctx)?;
         let mut idx = 0u64;
         // forced corners of every type with an I/O api
         for (ty, _) in IO_TYPES {
@@ -918,6 +923,7 @@ impl Property for C16 {
         let rec = Rec::from_json(input.get("rec").unwrap_or(&Value::Null));
         let chunk = input.get("chunk").and_then(|x| x.as_u64()).unwrap_or(1) as usize;
         match input.get("mode").and_then(|x| x.as_str()) {
+            Some("limited-history") => super::c16_limited::check_history(&super::c16_limited::Hist::from_json(input), ctx),
             Some("builder") => check_builder(&rec, chunk, ctx),
             _ => check_value(&rec, chunk, ctx),
         }
@@ -925,6 +931,9 @@ impl Property for C16 {
     fn describe(&self, tape: &[u8]) -> Value {
         let mut t = Tape::new(tape);
         let chunk = 1 + t.below(3);
+        if t.chance(1, 10) {
+            return super::c16_limited::Hist::gen(&mut t).to_json();
+        }
         if t.chance(3, 10) {
             json!({"mode": "builder", "rec": gen_builder(&mut t).to_json(), "chunk": chunk})
         } else {
@@ -934,7 +943,7 @@ impl Property for C16 {
         }
     }
     fn rule(&self) -> String {
-        "70% of the tapes decode to a well-formed value of one of the 20 types with write/read/write_to_slice (the C08 generator; weights favour multi-part encodings), 30% to a PacketBuilder stack \
+        "A tenth of the tapes decode to a LimitedReader call history (limit 0..40, underlying stream longer or shorter than the limit, up to 10 operations read_exact(n) / start_layer with requests biased to what is left +-3), run against a model of the documented fields: bytes pulled never exceed the limit, a rejected request pulls nothing and changes nothing, its length error describes the layer's state, requests that fit deliver the next bytes, accessors follow the model; all histories of <= 4 operations over limits 0..=5 are enumerated. Of the remaining tapes 70% decode to a well-formed value of one of the 20 types with write/read/write_to_slice (the C08 generator; weights favour multi-part encodings), 30% to a PacketBuilder stack \
          (none/ethernet2/linux_sll x none/single/double vlan x ipv4()/ipv6()/ip(IpHeaders with options and extension headers) x udp/tcp+options/icmpv4 echo/icmpv6 echo/icmpv4 type/icmpv6 type/arp, 0-24 payload bytes). \
          Per value ALL positions are enumerated: every k in 0..=len for a writer that fails after k bytes in three ways (partial accept then custom error, whole call rejected with custom error, Ok(0) -> WriteZero) plus a short-write and an interrupted writer; \
          every k for a reader that fails with a custom error / reports EOF after k bytes plus short and interrupted readers; every slice length 0..=len+1 with 16 guard bytes on both sides for write_to_slice (Ethernet2Header, LinuxSllHeader, all builder steps); \
@@ -950,6 +959,7 @@ impl Property for C16 {
             "BuildSliceWriteError::Space(n) is documented as 'the minimum required length': n must equal size(payload_len) which must equal the number of bytes write produces. SliceWriteSpaceError of the header types must carry required_len == header length and len == slice length.".into(),
             "After a space error the slice must be an (possibly empty) prefix of E followed by untouched bytes.".into(),
             "A LimitedReader with a limit below the header length must answer with the Len error variant whose required_len > len; with limit >= length the read must succeed and pull exactly the header length.".into(),
+            "LimitedReader histories end at the first I/O error of the underlying reader (how much a failed read_exact consumed is unspecified by std; every real caller gives up there); a length error is not an end: nothing was pulled, the reader stays usable and its budget must not grow.".into(),
             "The raw PacketBuilderStep<IpHeaders>::write(writer, ip_number, payload) entry is not exercised here (its extension walk with arbitrary numbers is C12/C10's subject).".into(),
         ]
     }
